@@ -34,6 +34,9 @@ const (
 	stTLSHello = "inside-tls-hello"
 	stUpgraded = "after-upgrade"
 	stGarbage  = "garbage"
+	// stMalformed: a complete but malformed request (or a good announce followed by a malformed upgrade request), then
+	// silence; a peer's bad input may cost that peer its connection, never the other peers theirs
+	stMalformed = "malformed-request"
 	stSlow     = "slow-trickle"
 )
 
@@ -48,6 +51,8 @@ type caseDesc struct {
 	// acknowledgements - so whatever the server has to say to it stays unacknowledged for ever. Without it a stalled
 	// DNS peer is silent on the tunnelled byte stream only and keeps polling.
 	DNSSilent bool `json:"dns_peer_stops_polling,omitempty"`
+	// AfterAnnounce (malformed-request only): a well-formed announce is exchanged first
+	AfterAnnounce bool `json:"malformed_request_follows_a_good_announce,omitempty"`
 }
 
 // mutedComm is a DNS communicator that can be switched to sending nothing at all.
@@ -131,6 +136,13 @@ func scriptSteps(c io.ReadWriter, d caseDesc, stop <-chan struct{}, skipLastRead
 		}
 	case stGarbage:
 		c.Write(vlib.PRF(uint64(d.Cut), 0, 200+d.Cut%800))
+	case stMalformed:
+		bad := malformedRequests[d.Cut%len(malformedRequests)]
+		if d.AfterAnnounce {
+			c.Write([]byte(announce()))
+			readResponse(c)
+		}
+		c.Write([]byte(bad))
 	case stSlow:
 		a := announce()
 		for i := 0; i < len(a); i++ {
@@ -142,6 +154,13 @@ func scriptSteps(c io.ReadWriter, d caseDesc, stop <-chan struct{}, skipLastRead
 			c.Write([]byte(a[i : i+1]))
 		}
 	}
+}
+
+var malformedRequests = []string{
+	"GET /\r\n\r\n", "GET\r\n\r\n", " \r\n\r\n", "  \r\n\r\n", "X-SOCKETACE /\r\n\r\n", "X-SOCKETACE  HTTP/1.1\r\n\r\n", "\r\n\r\n",
+	"X-SOCKETACE / HTTP/1.1\r\nNoColonHeader\r\n\r\n", "X-SOCKETACE / HTTP/1.1\r\n: no name\r\n\r\n", "X-SOCKETACE / HTTP/1.1 \r\n\r\n",
+	"GET / HTTP/1.1\r\nUpgrade: socketace\r\nConnection: upgrade\r\n\r\n", "GET / HTTP/1.1\r\nUpgrade: /\r\nConnection: upgrade\r\n\r\n",
+	"X-SOCKETACE / HTTP/1.1\r\nAccepts-Protocol-Version:\r\n\r\n", "X-SOCKETACE / HTTP/1.1\r\nAccepts-Protocol-Version: ,\r\n\r\n",
 }
 
 type wsRW struct{ c *websocket.Conn }
@@ -408,15 +427,16 @@ func TestStalledPeers(t *testing.T) {
 		if d.Kind == vlib.CarDNS && !vlib.Thorough() && rapid.IntRange(0, 2).Draw(rt, "dnsRare") != 0 {
 			d.Kind = vlib.CarTCP
 		}
-		stalls := []string{stConnect, stPartial, stBetween, stUpgraded, stGarbage, stSlow}
+		stalls := []string{stConnect, stPartial, stBetween, stUpgraded, stGarbage, stSlow, stMalformed, stMalformed}
 		if d.Kind == vlib.CarTCPTLS || d.Kind == vlib.CarHTTPS {
 			stalls = append(stalls, stTLSHello, stTLSHello)
 		}
 		if d.Kind == vlib.CarDNS {
-			stalls = []string{stConnect, stPartial, stBetween, stUpgraded, stGarbage}
+			stalls = []string{stConnect, stPartial, stBetween, stUpgraded, stGarbage, stMalformed}
 		}
 		d.Stall = stalls[rapid.IntRange(0, len(stalls)-1).Draw(rt, "stall")]
 		d.Cut = rapid.IntRange(1, 5000).Draw(rt, "cut")
+		d.AfterAnnounce = d.Stall == stMalformed && rapid.Bool().Draw(rt, "afterAnnounce")
 		d.Stalled = rapid.IntRange(1, 5).Draw(rt, "stalled")
 		if d.Kind == vlib.CarDNS {
 			d.Stalled = rapid.IntRange(1, 2).Draw(rt, "stalledDns")
@@ -463,6 +483,31 @@ func TestDNSStallPoints(t *testing.T) {
 			if problem != "" {
 				vlib.Rec.Violation(map[string]interface{}{"property": "C15", "case": d, "problem": problem})
 				t.Fatalf("C15 %+v: %s", d, problem)
+			}
+		}
+	}
+}
+
+// TestMalformedRequests enumerates every malformed request of the list, as first request and as the request after a good
+// announce, on the socket and the KCP endpoint, each followed by a well-behaved client that must be served.
+func TestMalformedRequests(t *testing.T) {
+	for _, kind := range []string{vlib.CarTCP, vlib.CarUDP} {
+		for i := range malformedRequests {
+			for _, after := range []bool{false, true} {
+				d := caseDesc{Kind: kind, Stall: stMalformed, Cut: i, Stalled: 1, Good: 1, AfterAnnounce: after}
+				vlib.Tap.Reset()
+				problem, inconclusive := runCase(d)
+				if inconclusive {
+					vlib.Rec.Inconclusive("setup-or-overload")
+					continue
+				}
+				vlib.Rec.Case(fmt.Sprintf("enumerated %+v", d), true, []string{"kind:" + d.Kind, "stall:" + d.Stall, "enumerated"}, func() interface{} {
+					return map[string]interface{}{"case": d, "request": malformedRequests[i]}
+				})
+				if problem != "" {
+					vlib.Rec.Violation(map[string]interface{}{"property": "C15", "case": d, "request": malformedRequests[i], "problem": problem})
+					t.Fatalf("C15 %+v: %s", d, problem)
+				}
 			}
 		}
 	}
